@@ -318,6 +318,88 @@ theorem model_trace_accepted (F : Family) (ops : List Op) (hI : Inv F.tab) :
       simp [Option.some.inj h1]
     · simp [Sym.same, e]
 
+/-! ### the whole judge -/
+
+/-- A fresh interpreter's tables are well-formed (mutually inverse, no key twice). -/
+theorem wf_initFamily (n : Nat) : Wf (initFamily n).tab := by
+  show Wf (baseTables n)
+  induction n with
+  | zero => exact wf_empty
+  | succ n ih =>
+    exact wf_insert (baseTables n) (baseName (n + 1)) (n + 1) ih
+      (baseTables_sym_none n (n + 1) (Nat.lt_succ_self n)) (baseTables_rev_none n (n + 1) (Nat.lt_succ_self n))
+
+theorem functional_of_nodup {α β} [DecidableEq α] [BEq α] [LawfulBEq α] [BEq β] [LawfulBEq β] (l : List (α × β))
+    (hnd : (l.map Prod.fst).Nodup) : SymSpec.functional l = true := by
+  simp only [SymSpec.functional, List.all_eq_true]
+  intro p hp q hq
+  by_cases e : p.1 = q.1
+  · have a := alookup_of_mem_nodup l hnd p.1 p.2 hp
+    have b := alookup_of_mem_nodup l hnd q.1 q.2 hq
+    rw [e, b] at a
+    simp [Option.some.inj a]
+  · simp [e]
+
+/-- The spec's table clause holds of well-formed tables: each table is functional and each
+is exactly the converse of the other. -/
+theorem wf_tablesBijective (t : Tables) (h : Wf t) : SymSpec.tablesBijective t.sym t.rev = true := by
+  simp only [SymSpec.tablesBijective, Bool.and_eq_true]
+  refine ⟨⟨⟨functional_of_nodup _ h.symKeys, functional_of_nodup _ h.revKeys⟩, ?_⟩, ?_⟩
+  · rw [List.all_eq_true]
+    intro p hp
+    have := (h.inv p.1 p.2).mp (alookup_of_mem_nodup _ h.symKeys p.1 p.2 hp)
+    simpa using mem_of_alookup _ _ _ this
+  · rw [List.all_eq_true]
+    intro p hp
+    have := (h.inv p.2 p.1).mpr (alookup_of_mem_nodup _ h.revKeys p.1 p.2 hp)
+    simpa using mem_of_alookup _ _ _ this
+
+theorem scriptEqOk_run (F : Family) (ops : List Op) : SymSpec.scriptEqOk (evsOf F ops) = true := by
+  induction ops generalizing F with
+  | nil => rfl
+  | cons op rest ih =>
+    simp only [evsOf, SymSpec.scriptEqOk, List.all_cons, Bool.and_eq_true]
+    refine ⟨?_, ih _⟩
+    rcases evOf_shape F op with ⟨he, _⟩ | ⟨he, _⟩ | ⟨c, nm, _, he⟩ | ⟨c, nm, _, _, he⟩ <;> rw [he]
+
+/-- **judge_accepts_model**: for every history on every family that starts from well-formed
+tables, the specification's judge — the function `zydrv` runs on the traces of the real
+implementation — answers `ok` on the model's trace and final tables. -/
+theorem judge_accepts_model (F : Family) (ops : List Op) (h : Wf F.tab) :
+    SymSpec.judge (evsOf F ops) (run F ops).1.tab.sym (run F ops).1.tab.rev = .ok := by
+  obtain ⟨h1, h2, h3, h4⟩ := model_trace_accepted F ops h.inv
+  simp only [SymSpec.judge, h1, h2, h3, h4, scriptEqOk_run F ops,
+    wf_tablesBijective _ (run_wf F ops h)]
+  rfl
+
+example : SymSpec.judge (evsOf (initFamily 2) [.mk 0 [97], .dup 0, .gen 1 [103], .gen 0 [103]])
+    (run (initFamily 2) [.mk 0 [97], .dup 0, .gen 1 [103], .gen 0 [103]]).1.tab.sym
+    (run (initFamily 2) [.mk 0 [97], .dup 0, .gen 1 [103], .gen 0 [103]]).1.tab.rev = .ok := by decide
+
+/-- **eq_by_name** (`(== (str2sym a) (str2sym b))`, hash keys): the numbers of the symbols
+interned for two names — by any two members, with anything in between — are equal exactly
+when the names are. -/
+theorem eq_by_name (F : Family) (hI : Inv F.tab) (i j : Nat) (a b : Name) (between : List Op)
+    (k₁ k₂ : Nat) (n₁ n₂ : Name) (e₁ e₂ : Bool)
+    (h₁ : (step F (.mk i a)).2 = .sym k₁ n₁ e₁)
+    (h₂ : (step (run (step F (.mk i a)).1 between).1 (.mk j b)).2 = .sym k₂ n₂ e₂) :
+    k₁ = k₂ ↔ a = b := by
+  have hn₁ := interned_has_requested_name F i a n₁ k₁ e₁ (Or.inl h₁)
+  have hn₂ := interned_has_requested_name _ j b n₂ k₂ e₂ (Or.inl h₂)
+  subst hn₁; subst hn₂
+  -- both observations belong to the history  mk i a :: between ++ [mk j b]
+  let ops := Op.mk i n₁ :: (between ++ [Op.mk j n₂])
+  have hobs : (run F ops).2 = (step F (.mk i n₁)).2 :: ((run (step F (.mk i n₁)).1 between).2 ++
+      [(step (run (step F (.mk i n₁)).1 between).1 (.mk j n₂)).2]) := by
+    simp only [ops, run_cons, run_append_single]
+  have m₁ : Obs.sym k₁ n₁ e₁ ∈ (run F ops).2 := by rw [hobs, h₁]; simp
+  have m₂ : Obs.sym k₂ n₂ e₂ ∈ (run F ops).2 := by rw [hobs, h₂]; simp
+  constructor
+  · intro e; subst e
+    exact different_names_different_symbols F ops hI _ _ k₁ n₁ n₂ m₁ m₂ rfl rfl
+  · intro e; subst e
+    exact same_name_same_symbol F ops _ _ k₁ k₂ n₁ m₁ m₂ rfl rfl
+
 /-! ### the pinned tree: `GenSymbol` was not fresh -/
 
 /-- A script interns a name shaped like the next generated symbol (`(str2sym "g2")` on a
